@@ -20,6 +20,7 @@
   every run by the tie and the e2e oracle (harness/c06.go), not proved in Lean — see manifest note.
 -/
 import GormModel.Lemmas.Heap
+import GormModel.Lemmas.HeapQuiet
 namespace Gorm
 open Gorm.Heap
 
@@ -165,8 +166,66 @@ theorem C06_select_caller_slice_counterexample :
     (run cfg0 8 f22History).out 0 = [.fin 0, .sel 1, .sel 2, .sel 4] ∧
     (run cfg0 8 (sliceFor f22History 2)).out 0 = [.fin 0, .sel 1, .sel 2, .sel 3] := by decide +kernel
 
-/-- `Where.Build` rendered twice from the same shared list gives the same tokens (the swap is
-    idempotent for DIRECT rendering) — checked on the F23 list; the general statement is open. -/
+/-- F24: a reusable handle with pending Scopes used as a group condition: `v.executeScopes()` on the argument
+    itself sets `scopes = nil` in the handle's statement, the scopes' conditions go to a discarded instance —
+    the group lacks them and `h.Find()` has lost its WHERE afterwards. -/
+def f24History : History := ⟨[], [.scopes 0 1, .session 1, .render 2 0, .cond 0 0 2, .condG 0 4 2, .render 5 0, .render 2 0]⟩
+
+theorem C06_group_arg_scopes_counterexample :
+    (run cfg0 8 f24History).out 0 = [.fin 0, .whereKw, .cond 1] ∧
+    (run cfg0 8 f24History).out 1 = [.fin 0, .whereKw, .cond 2] ∧
+    (run cfg0 8 f24History).out 2 = [.fin 0] ∧
+    (run cfg0 8 (sliceFor f24History 6)).out 0 = [.fin 0, .whereKw, .cond 1] := by decide +kernel
+
+/-! ## the same witnesses on a tree that carries the repairs -/
+
+/-- does rendering number `n` (made by op `k`) differ from the same chain replayed alone? -/
+def interferes (c : Cfg) (h : History) (k n : Nat) : Bool :=
+  (run c 8 h).out n != (run c 8 (sliceFor h k)).outs.getLast?.getD []
+
+/-- with all five repairs the five witnesses are interference-free, no exposed slot is written, and the
+    group built from the scoped handle contains the scope's condition -/
+theorem C06_witnesses_repaired :
+    interferes cfgFixed f4History 6 0 = false ∧ interferes cfgFixed f5History 6 1 = false ∧
+    interferes cfgFixed f23History 6 1 = false ∧ interferes cfgFixed f22History 2 0 = false ∧
+    interferes cfgFixed f24History 6 2 = false ∧
+    (run cfgFixed 8 f4History).heap.writes = 0 ∧ (run cfgFixed 8 f5History).heap.writes = 0 ∧
+    (run cfgFixed 8 f23History).heap.writes = 0 ∧ (run cfgFixed 8 f22History).heap.writes = 0 ∧
+    (run cfgFixed 8 f24History).heap.writes = 0 ∧
+    (run cfgFixed 8 f24History).out 1 = [.fin 0, .whereKw, .cond 2, .and, .cond 1] := by decide +kernel
+
+/-- WHAT HOLDS FOR THE CURRENT SOURCE TREE: each witness interferes exactly when the regenerated fact about
+    its place says "in place" — the same statement on the unchanged tree (all five interfere: the findings)
+    and on a tree carrying any subset of the repairs (those witnesses no longer interfere). -/
+theorem C06_findings_current_tree :
+    interferes genAll f4History 6 0 = (genAll.mg.ret == .appendOld) ∧
+    interferes genAll f5History 6 1 = (!genAll.fx.groupCopies) ∧
+    interferes genAll f23History 6 1 = (!genAll.fx.buildCopies) ∧
+    interferes genAll f22History 2 0 = (!genAll.fx.selectCopies) ∧
+    interferes genAll f24History 6 2 = (!genAll.fx.groupInstance) := by decide +kernel
+
+/-- … for EVERY combination of repaired / unrepaired places (not only the one the tree is in) -/
+theorem C06_findings_all_trees (r : Bool) (gc gi bc sc : Bool) :
+    let c : Cfg := { cfg0 with mg := { cfg0.mg with ret := if r then .makeCopy else .appendOld },
+                               fx := { groupCopies := gc, groupInstance := gi, buildCopies := bc, selectCopies := sc } }
+    interferes c f4History 6 0 = (!r) ∧ interferes c f5History 6 1 = (!gc) ∧ interferes c f23History 6 1 = (!bc) ∧
+    interferes c f22History 2 0 = (!sc) ∧ interferes c f24History 6 2 = (!gi) := by
+  cases r <;> cases gc <;> cases gi <;> cases bc <;> cases sc <;> decide +kernel
+
+/-! ## the swap of `Where.Build` -/
+
+/-- BENIGNITY of the repaired `Where.Build` (swap on a copy), for every heap, every list and every nesting
+    depth: it writes nothing at all — the heap after the call IS the heap before it.  Hence rendering is
+    idempotent (any number of renderings of any handle give the same tokens) and invisible to every other
+    chain, group conditions included. -/
+theorem C06_swap_on_copy_benign (fuel : Nat) (H : Heap) (w : Slice) :
+    (whereBuild true fuel H w).1 = H ∧
+    (whereBuild true fuel (whereBuild true fuel H w).1 w).2 = (whereBuild true fuel H w).2 := by
+  have h := whereBuild_copies_heap fuel H w
+  exact ⟨h, by rw [h]⟩
+
+/-- … whereas the in-place swap is idempotent only for DIRECT rendering of the same list (checked on the F23
+    list; `C06_swap_counterexample` shows it is not benign for a group built from that list). -/
 theorem C06_swap_idempotent_instance :
     (run cfg0 8 ⟨[], [.cond 1 0 1, .cond 0 1 2, .session 2, .render 3 0, .render 3 0]⟩).outs =
       [[.fin 0, .whereKw, .cond 2, .or, .cond 1], [.fin 0, .whereKw, .cond 2, .or, .cond 1]] := by decide +kernel
@@ -199,5 +258,36 @@ theorem C06_noninterference_partial (slices : List (List Nat × Nat)) (fuel : Na
       show (runFrom genAll slices fuel (step genAll slices fuel S op) ops).heap.writes = S.heap.writes
       rw [ih (fun o ho => hops o (List.mem_cons_of_mem _ ho)), hstep]
   exact C06_frozen genAll slices fuel S ops (hwr S) s v
+
+/-! ## the tree with copies everywhere: linear histories are quiet, hence frozen -/
+
+theorem C06_cfgFixed_eq : cfgFixed = cfgSafe := rfl
+
+/-- QUIET: with copies everywhere (regenerated facts = `cfgFixed`), in EVERY history in which a chain instance
+    is used at most once more (`Linear`: handle 0 and the results of Session / Session{NewDB} / WithContext /
+    Begin any number of times; no forward references) — derivations, all 24 chain methods, handles with or
+    without pending scopes as group conditions, Select/Joins/Scopes appends, Find/First/Count/Delete renderings —
+    no step ever writes a slot that any slice already exposes.  (The remaining in-place appends of Joins / Scopes /
+    Select hit the frontier of an array only the appending chain owns: ownership invariant in Lemmas/HeapQuiet.) -/
+theorem C06_linear_history_quiet (fuel : Nat) (sl : List (List Nat × Nat)) (ops : List Op) (hl : Linear ops) (n : Nat) :
+    (run cfgFixed fuel ⟨sl, ops.take n⟩).heap.writes = 0 :=
+  quiet_of_linear sl fuel ops hl n
+
+/-- FROZEN for linear histories: whatever is built, executed or abandoned after any point of the history, every
+    slice that existed at that point — everything reachable from every handle that existed — reads the same
+    at the end. -/
+theorem C06_linear_history_frozen (fuel : Nat) (sl : List (List Nat × Nat)) (pre post : List Op) (hl : Linear (pre ++ post))
+    (s : Slice) (v : s.validIn (run cfgFixed fuel ⟨sl, pre⟩).heap) :
+    readS (run cfgFixed fuel ⟨sl, pre ++ post⟩).heap s = readS (run cfgFixed fuel ⟨sl, pre⟩).heap s := by
+  apply C06_frozen_history cfgFixed fuel sl pre post _ s v
+  have h1 := quiet_of_linear sl fuel (pre ++ post) hl (pre ++ post).length
+  have h2 := quiet_of_linear sl fuel (pre ++ post) hl pre.length
+  rw [List.take_length] at h1
+  rw [List.take_left'  rfl] at h2
+  show (runFrom cfgFixed sl fuel (initState sl) (pre ++ post)).heap.writes = (runFrom cfgFixed sl fuel (initState sl) pre).heap.writes
+  rw [C06_cfgFixed_eq, h1, h2]
+
+/-- `Linear` is decidable (the harness generator obeys it) and not vacuous -/
+example : Linear f5History.ops := (linear_iff_linearB _).2 (by decide)
 
 end Gorm
